@@ -93,4 +93,13 @@ NoOverrun == phase \in {"main", "eval"} => (t < MaxIter /\ \A i \in 1..t : ~(gap
 \* hence the certified gap: the minimum is below nu, and the returned gap is within precision of the minimum
 BestGapCertified == (phase = "done" /\ t < MaxIter) => (MinGap < NuRank)
 BestIsLastMin == phase = "done" => (gaps[best + 1] >= MinGap /\ \A i \in (best + 2)..Len(gaps) : gaps[i] > MinGap)
+\* The inductive invariant of EGInd.tla (proved there by Apalache for unbounded max_iter, nu and gap values), mapped
+\* onto this specification's variables; TLC checks it here so that the two texts cannot drift apart unnoticed.
+IndMapped == LET abstractPhase == IF phase \in {"main", "eval"} THEN "iter" ELSE phase
+                 cert == \E i \in 1..t : gaps[i] < NuRank /\ i - 1 >= MinIter
+             IN /\ t >= 0 /\ t <= MaxIter /\ (abstractPhase \in {"select", "done"} => t >= 1)
+                /\ ((abstractPhase \in {"select", "done"} /\ t < MaxIter) => (gaps[t] < NuRank /\ t - 1 >= MinIter /\ MinGap < NuRank))
+                /\ (abstractPhase = "iter" => (t < MaxIter /\ ~cert))
+                /\ (t >= 1 => MinGap <= gaps[t])
+                /\ (phase = "done" => gaps[best + 1] >= MinGap)
 =============================================================================
